@@ -13,6 +13,8 @@ import (
 type HeartbeatManager struct {
 	localEntity  api.EntityLocalInterface
 	localFeature api.FeatureLocalInterface
+	// guards localFeature for checking its presence without waiting for a heartbeat update in progress
+	muxFeature sync.RWMutex
 
 	heartBeatNum   uint64 // see https://github.com/golang/go/issues/11891
 	stopHeartbeatC chan struct{}
@@ -66,7 +68,9 @@ func (c *HeartbeatManager) SetLocalFeature(entity api.EntityLocalInterface, feat
 	c.mux.Lock()
 
 	c.localEntity = entity
+	c.muxFeature.Lock()
 	c.localFeature = feature
+	c.muxFeature.Unlock()
 
 	// initialise heartbeat data
 	heartbeatData := c.heartbeatData(time.Now().UTC(), c.heartBeatCounter())
@@ -91,9 +95,9 @@ func (c *HeartbeatManager) StartHeartbeat() error {
 	}
 
 	// without the feature the heartbeat data can not be updated
-	c.mux.Lock()
+	c.muxFeature.RLock()
 	localFeature := c.localFeature
-	c.mux.Unlock()
+	c.muxFeature.RUnlock()
 	if localFeature == nil {
 		return errors.New("the DeviceDiagnosis server feature with the heartbeat function is missing")
 	}
